@@ -612,6 +612,83 @@ def rule_w7(chk: Check, sinks: list[FunctionInfo]) -> None:
     chk.ob("W7", "strict encodes in response sinks examined", True, f"{n} sites", nontrivial=False)
 
 
+def rule_w8(chk: Check) -> None:
+    """The request parser fails with ValueError only.  The protocol answers 59
+    from `except ValueError` around the parser; any other exception type raised
+    on a request line leaves data_received uncaught and the client without a
+    response.  Catalogue: an integer-indexed or string-keyed subscript load on a
+    local whose emptiness / key presence no dominating test has established."""
+    chk.rule("W8", "the request-line parsers raise nothing but ValueError on client input: every constant-index / constant-key subscript load on a local is dominated by a test that the element / key exists (unless the protocol catches everything around the parser)")
+    ci = chk.proj.cls(SERVER_PROTO)
+    # does the protocol catch everything around the parser calls?
+    catch_all = True
+    n_sites = 0
+    for m in ci.methods.values():
+        for t in walk(m.node):
+            if isinstance(t, ast.Try) and any(method_call(c) and method_call(c)[1] == "from_line" for b in t.body for c in calls(b)):
+                n_sites += 1
+                if not any(x in (None, "Exception", "BaseException") for h in t.handlers for x in handler_types(h)):
+                    catch_all = False
+    chk.require("W8", ci.key, "guarded request-parser calls", n_sites, 1, "the protocol no longer parses the request line inside a try block")
+    if catch_all and n_sites:
+        chk.ob("W8", "the protocol catches every exception around the parser", True)
+        return
+    parsers = [f for f in chk.proj.functions.values() if f.node.name == "from_line" and f.module.name == "protocol.request"]
+    n = 0
+    for fi in parsers:
+        g = Builder(chk.proj, lambda caller, call, callee, depth: callee.module.name in ("protocol.request", "utils.url") and callee.node.name not in ("from_line", "__init__"), 3).build(fi)
+        for node in g.nodes:
+            if node.ast is None or node.kind not in ("stmt", "test", "for"):
+                continue
+            probe = node.ast.iter if node.kind == "for" and isinstance(node.ast, (ast.For, ast.AsyncFor)) else node.ast
+            for sub in walk(probe):
+                if not (isinstance(sub, ast.Subscript) and isinstance(sub.ctx, ast.Load) and isinstance(sub.value, ast.Name)):
+                    continue
+                idx = sub.slice
+                if isinstance(idx, ast.UnaryOp) and isinstance(idx.op, ast.USub) and isinstance(idx.operand, ast.Constant):
+                    key = -idx.operand.value
+                elif isinstance(idx, ast.Constant) and isinstance(idx.value, (int, str)) and not isinstance(idx.value, bool):
+                    key = idx.value
+                else:
+                    continue
+                name = sub.value.id
+                if name in ("dict", "list", "tuple", "set", "type"):
+                    continue  # annotations
+                n += 1
+                blocked = set()
+                for t in g.nodes:
+                    if t.kind != "test" or t.ast is None or t.stack != node.stack:
+                        continue
+                    a, flip = t.ast, False
+                    while isinstance(a, ast.UnaryOp) and isinstance(a.op, ast.Not):
+                        a, flip = a.operand, not flip
+                    sat = None
+                    if isinstance(key, str) and isinstance(a, ast.Compare) and len(a.ops) == 1 and isinstance(a.ops[0], (ast.In, ast.NotIn)) and isinstance(a.left, ast.Constant) and a.left.value == key and dotted(a.comparators[0]) == name:
+                        sat = "T" if isinstance(a.ops[0], ast.In) else "F"
+                    elif isinstance(key, int) and dotted(a) == name:
+                        sat = "T"  # non-empty
+                    elif isinstance(key, int) and isinstance(a, ast.Compare) and len(a.ops) == 1 and norm(a.left) == f"len({name})" and isinstance(a.ops[0], (ast.Gt, ast.GtE, ast.NotEq)):
+                        sat = "T"
+                    elif isinstance(key, int) and isinstance(a, ast.Compare) and len(a.ops) == 1 and norm(a.left) == f"len({name})" and isinstance(a.ops[0], (ast.Lt, ast.LtE, ast.Eq)):
+                        sat = "F"
+                    if sat is None:
+                        continue
+                    if flip:
+                        sat = {"T": "F", "F": "T"}[sat]
+                    blocked |= {(t.id, b, lab) for b, lab in g.succ[t.id] if lab == sat}
+                par = g.reach([g.entry.id], blocked_edges=blocked)
+                ok = node.id not in par
+                if not ok:
+                    exc = "KeyError" if isinstance(key, str) else "IndexError"
+                    chk.finding(
+                        "W8", node.func.key, f"parser-may-raise:{exc}:{norm(sub)}",
+                        f"`{norm(sub)}` can raise {exc} on a request line (e.g. an empty element / a missing key) and no dominating test rules that out; the protocol answers 59 only for ValueError, so the exception leaves data_received and the client gets no response",
+                        node.where(),
+                    )
+                chk.ob("W8", f"{node.func.key}: `{norm(sub)}` guarded", ok)
+    chk.ob("W8", "constant subscripts in the request parsers examined", True, f"{n} sites in {len(parsers)} parsers", nontrivial=False)
+
+
 def run(chk: Check) -> None:
     sinks = rule_w1(chk)
     rule_w2(chk, sinks)
@@ -619,6 +696,7 @@ def run(chk: Check) -> None:
     rule_w5(chk)
     rule_w6(chk)
     rule_w7(chk, sinks)
+    rule_w8(chk)
     chk.trusted = [
         "CPython ast parser",
         "engine CFG / inliner / BoolFacts path pruning / abstract string domain",
